@@ -270,15 +270,13 @@ Qed.
 
 (** * C08_dead_worker_bounded *)
 
-Definition dead_oe (k : ctl) : Prop := is_dead (s_out k) = true \/ is_dead (s_err k) = true.
+Definition dead_oe (k : ctl) : Prop := any_dead k = true.
 
 Lemma decide_dead c k : dead_oe k -> is_failure_report (decide c k false) = true.
 Proof.
-  unfold dead_oe, decide, any_dead_k. intros [H|H].
-  - destruct (s_out k) as [| | |[|]]; try discriminate; cbn;
-      destruct (s_in k) as [| | |[|]], (s_err k) as [| | |[|]]; reflexivity.
-  - destruct (s_err k) as [| | |[|]]; try discriminate; cbn;
-      destruct (s_out k) as [| | |[|]], (s_in k) as [| | |[|]]; reflexivity.
+  unfold dead_oe, decide, any_dead, any_dead_k.
+  destruct (s_out k) as [| | |[|]], (s_in k) as [| | |[|]], (s_err k) as [| | |[|]];
+    cbn; intros H; try discriminate; reflexivity.
 Qed.
 
 Definition DeadPc (k : ctl) : Prop :=
@@ -288,6 +286,15 @@ Definition DeadPc (k : ctl) : Prop :=
   | PDone o => is_failure_report o = true
   end.
 
+Lemma bounded_when_dead k w :
+  dead_oe k -> is_run (s_in k) = false -> is_run (wget k w) = true -> join_bounded k w = true.
+Proof.
+  unfold dead_oe, any_dead. intros D I R. destruct w; cbn in *.
+  - destruct (s_out k); try discriminate. cbn in D. rewrite orb_comm. exact D.
+  - rewrite I in R. discriminate.
+  - destruct (s_err k); try discriminate. cbn in D. rewrite orb_false_r in D. exact D.
+Qed.
+
 Lemma joins_dead c k todo cur r :
   dead_oe k -> is_run (s_in k) = false -> (cur = Some true \/ cur = None) ->
   joins_result c k todo cur false r -> dead_oe r /\ DeadPc r.
@@ -295,12 +302,18 @@ Proof.
   intros D I C J. inversion J as [Hall Heq | pre w rest Htodo Hpre Hrun Heq]; subst r.
   - split; [exact D|]. unfold DeadPc. cbn. apply decide_dead. exact D.
   - split; [exact D|]. unfold DeadPc. cbn. split; [reflexivity|]. f_equal.
-    assert (B : join_bounded k w = true).
-    { destruct w; cbn in *.
-      - destruct D as [D|D]; [|exact D]. destruct (s_out k); discriminate.
-      - rewrite I in Hrun. discriminate.
-      - destruct D as [D|D]; [exact D|]. destruct (s_err k); discriminate. }
+    pose proof (bounded_when_dead k w D I Hrun) as B.
     destruct pre; [|exact B]. destruct C as [->| ->]; [reflexivity | exact B].
+Qed.
+
+Lemma any_dead_iff k : any_dead k = true <-> exists w, is_dead (wget k w) = true.
+Proof.
+  unfold any_dead. split.
+  - intros H. apply orb_true_iff in H. destruct H as [H|H]; [apply orb_true_iff in H; destruct H as [H|H]|].
+    + exists WOut. exact H.
+    + exists WIn. exact H.
+    + exists WErr. exact H.
+  - intros [w H]. destruct w; cbn in H; rewrite H; rewrite ?orb_true_r; reflexivity.
 Qed.
 
 Definition DeadInv (c : cfg) (k : ctl) : Prop := Inv c k /\ dead_oe k /\ DeadPc k.
@@ -342,9 +355,8 @@ Proof.
     destruct (apply_ev_join c k n e todo (Some true) false P) as (P' & F' & Sub').
     unfold advance. cbn [fst snd]. rewrite P'.
     assert (D' : dead_oe (fst (apply_ev c (k, n) e))).
-    { destruct D as [D|D]; [left|right].
-      - apply (apply_ev_dead c k n e WOut D).
-      - apply (apply_ev_dead c k n e WErr D). }
+    { apply any_dead_iff in D. destruct D as [w0 D]. apply any_dead_iff. exists w0.
+      apply (apply_ev_dead c k n e w0 D). }
     assert (Rin : is_run (s_in (fst (apply_ev c (k, n) e))) = false).
     { destruct (is_run (s_in (fst (apply_ev c (k, n) e)))) eqn:R; [|reflexivity].
       specialize (Sub' WIn R). cbn in Sub'.
@@ -365,10 +377,10 @@ Qed.
 
 (** the death itself: a running stdout/stderr worker dies while the main thread waits *)
 Lemma death_step c k n w x :
-  Inv c k -> s_pc k = PWait -> w <> WIn -> is_run (wget k w) = true ->
+  Inv c k -> s_pc k = PWait -> is_run (wget k w) = true ->
   DeadInv c (fst (step c (k, n) (EExc w x))).
 Proof.
-  intros I P Hw R. split; [apply (step_inv c (k, n) _ I)|].
+  intros I P R. split; [apply (step_inv c (k, n) _ I)|].
   pose proof I as [_ HI]. rewrite P in HI. destruct HI as (Pr & D & F & Rp & T).
   unfold step, apply_ev. cbn [fst snd]. unfold running. rewrite P. cbn [negb]. rewrite R. cbn [fst snd].
   unfold advance. cbn [fst snd]. rewrite pc_wset, P.
@@ -378,7 +390,7 @@ Proof.
   rewrite Pr', D'. unfold leave_wait. cbn [fst snd].
   match goal with |- dead_oe (fst (run_joins c (?k1, ?n1) ?todo None false)) /\ _ =>
     apply (joins_dead c k1 todo None); [ | | right; reflexivity | apply (run_joins_result c todo (k1, n1) None false)] end.
-  - unfold dead_oe. destruct w; cbn; [left; reflexivity | elim Hw; reflexivity | right; reflexivity].
+  - unfold dead_oe, any_dead. destruct w; cbn; rewrite ?orb_true_r; reflexivity.
   - cbn. destruct w; cbn; destruct (s_in k); reflexivity.
 Qed.
 
@@ -416,12 +428,12 @@ Proof.
      | rewrite Pr, Dd; reflexivity ]).
 Qed.
 
-Lemma death_prefix c w x : w <> WIn -> forall script k n od ed,
+Lemma death_prefix c w x : forall script k n od ed,
   Inv c k -> s_pc k = PWait -> Rel c k od ed ->
   death_from c od ed script = Some (w, x) ->
   DeadInv c (fst (run_events c (k, n) script)).
 Proof.
-  intros Hw. induction script as [|e r IH]; intros k n od ed I P (Ro & Re & Ri) Dth; [discriminate|].
+  induction script as [|e r IH]; intros k n od ed I P (Ro & Re & Ri) Dth; [discriminate|].
   change (run_events c (k, n) (e :: r)) with (run_events c (step c (k, n) e) r).
   cbn [death_from] in Dth.
   destruct (is_end c e) eqn:EE; [discriminate|].
@@ -465,7 +477,7 @@ Proof.
       apply andb_true_iff in G. destruct G as [G1 G2]. apply negb_true_iff in G2.
       destruct w; cbn in *.
       * rewrite Ro, G2. reflexivity.
-      * elim Hw. reflexivity.
+      * rewrite Ri, G1. reflexivity.
       * rewrite Re. apply negb_true_iff in G1. rewrite G1, G2. reflexivity.
     + apply (Keep od ed); [|split; auto|exact Dth].
       apply wait_step_same; auto. unfold apply_ev. cbn [fst snd]. unfold running. rewrite P. cbn [negb].
@@ -526,24 +538,46 @@ Qed.
 
 Lemma drain_eof_dead c k : dead_oe k -> dead_oe (drain_eof c k).
 Proof.
-  unfold dead_oe, drain_eof. intros D.
+  unfold dead_oe. intros D. apply any_dead_iff in D. destruct D as [w D]. apply any_dead_iff. exists w.
+  unfold drain_eof.
   destruct (is_run (s_out k) && negb (c_hold_out c)) eqn:A; cbn;
-    match goal with |- context [if ?b then _ else _] => destruct b eqn:B end; cbn; try exact D.
-  - apply andb_true_iff in A. destruct A as [A _]. destruct D as [D|D].
-    + destruct (s_out k); discriminate.
-    + cbn in B. apply andb_true_iff in B. destruct B as [B _]. destruct (s_err k); discriminate.
-  - apply andb_true_iff in A. destruct A as [A _]. destruct D as [D|D]; [|right; exact D].
-    destruct (s_out k); discriminate.
-  - apply andb_true_iff in B. destruct B as [B _]. destruct D as [D|D]; [left; exact D|].
-    destruct (s_err k); discriminate.
+    match goal with |- context [if ?b then _ else _] => destruct b eqn:B end;
+    destruct w; cbn in *; try exact D.
+  - apply andb_true_iff in A. destruct A as [A _]. destruct (s_out k); discriminate.
+  - apply andb_true_iff in B. destruct B as [B _]. destruct (s_err k); discriminate.
+  - apply andb_true_iff in A. destruct A as [A _]. destruct (s_out k); discriminate.
+  - apply andb_true_iff in B. destruct B as [B _]. destruct (s_err k); discriminate.
 Qed.
 
-Theorem dead_worker_bounded_partial c script w x :
-  start_raises c = false -> death_while_running c script = Some (w, x) -> w <> WIn ->
-  exists o, s_pc (fst (run_sm c script)) = PDone o /\ is_failure_report o = true /\
-            n_expired (snd (run_sm c script)) <= 1.
+(** one expiry of a bounded join in a state where some worker is dead: the outcome
+    is settled, or the main thread is blocked again -- in a bounded join of a
+    worker further down the list *)
+Lemma expire_dead c k n u rest :
+  dead_oe k -> is_run (s_in k) = false -> s_pc k = PJoin (u :: rest) (Some true) false ->
+  n_expired (snd (expire c (k, n))) = S (n_expired n) /\
+  ((exists o, s_pc (fst (expire c (k, n))) = PDone o /\ is_failure_report o = true) \/
+   (exists pre u2 rest2, rest = pre ++ u2 :: rest2 /\ is_run (wget k u2) = true /\
+      fst (expire c (k, n)) = set_pc k (PJoin (u2 :: rest2) (Some true) false))).
 Proof.
-  intros S Dth Hw. unfold run_sm.
+  intros D Rin P. unfold expire. cbn [fst snd]. rewrite P.
+  destruct (run_joins_kills c rest (k, add_steps 1 (add_expired n)) None false) as [_ XE].
+  pose proof (run_joins_result c rest (k, add_steps 1 (add_expired n)) None false) as J.
+  set (r := run_joins c (k, add_steps 1 (add_expired n)) rest None false) in *.
+  cbn [fst snd] in XE, J. split; [rewrite XE; reflexivity|].
+  destruct (joins_dead c k rest None (fst r) D Rin (or_intror eq_refl) J) as [_ Pr].
+  inversion J as [Hall Heq | pre u2 rest2 Htodo Hpre Hrun Heq].
+  - left. eexists. split; [try rewrite <- Heq; reflexivity | apply decide_dead; exact D].
+  - right. exists pre, u2, rest2. split; [exact Htodo|]. split; [exact Hrun|].
+    unfold DeadPc in Pr. try rewrite <- Heq in Pr. cbn in Pr. destruct Pr as [_ Ec].
+    try rewrite <- Heq. unfold set_pc. cbn. rewrite Ec. reflexivity.
+Qed.
+
+Theorem dead_worker_bounded c script w x :
+  start_raises c = false -> death_while_running c script = Some (w, x) ->
+  exists o, s_pc (fst (run_sm c script)) = PDone o /\ is_failure_report o = true /\
+            n_expired (snd (run_sm c script)) <= 2.
+Proof.
+  intros S Dth. unfold run_sm.
   assert (E0 : advance c (init c) = init c).
   { unfold advance, init. rewrite S. cbn. destruct (c_in c), (c_pty c); reflexivity. }
   rewrite E0.
@@ -551,7 +585,7 @@ Proof.
   assert (X0 : n_expired (snd (init c)) = 0) by (unfold init; rewrite S; reflexivity).
   assert (DI : DeadInv c (fst (run_events c (init c) script))).
   { rewrite (surjective_pairing (init c)).
-    apply (death_prefix c w x Hw script (fst (init c)) (snd (init c)) false false); auto.
+    apply (death_prefix c w x script (fst (init c)) (snd (init c)) false false); auto.
     - unfold init. rewrite S. reflexivity.
     - unfold init, Rel. rewrite S. cbn. auto. }
   pose proof (run_events_expired c script (init c)) as X1. rewrite X0 in X1.
@@ -578,44 +612,63 @@ Proof.
     assert (Pd : s_pc (fst r) = PDone (decide c k' false)) by (rewrite <- Heq; reflexivity).
     rewrite (expire_done c r _ Pd), (expire_done c r _ Pd).
     eexists. split; [exact Pd|]. split; [apply decide_dead; exact D'|]. rewrite XJ, X1. lia.
-  - (* one reader is held open: its 1 s join expires, nothing else is running *)
+  - (* a reader is held open: its 1 s join expires; at most one more can follow *)
     unfold DeadPc in Pr. rewrite <- Heq in Pr. cbn in Pr. destruct Pr as [_ Ecur].
-    assert (Pj : s_pc (fst r) = PJoin (u :: rest) (Some true) false).
-    { rewrite <- Heq. cbn. rewrite Ecur. reflexivity. }
     assert (Er : fst r = set_pc k' (PJoin (u :: rest) (Some true) false)).
     { rewrite <- Heq. unfold set_pc. cbn. rewrite Ecur. reflexivity. }
-    assert (Rest : forall y, In y rest -> is_run (wget (fst r) y) = false).
-    { intros y Hy. rewrite Er, wget_set_pc.
-      destruct (is_run (wget k' y)) eqn:Ry; [|reflexivity]. exfalso.
-      assert (Ny : y <> u).
-      { intros ->. rewrite Htodo in N. apply NoDup_suffix in N. inversion N; subst. contradiction. }
-      destruct D' as [D'|D'].
-      - destruct y, u; cbn in *; try congruence;
-          try (rewrite Rin' in *; discriminate);
-          destruct (s_out k'); discriminate.
-      - destruct y, u; cbn in *; try congruence;
-          try (rewrite Rin' in *; discriminate);
-          destruct (s_err k'); discriminate. }
-    destruct (run_joins_all_done c rest (fst r, add_steps 1 (add_expired (snd r))) None false) as [A B].
-    { intros y Hy. cbn [fst]. apply Rest. exact Hy. }
-    destruct (run_joins_kills c rest (fst r, add_steps 1 (add_expired (snd r))) None false) as [_ XE].
-    set (r2 := run_joins c (fst r, add_steps 1 (add_expired (snd r))) rest None false) in *.
-    cbn [fst snd] in A, XE.
-    assert (Pd : s_pc (fst r2) = PDone (decide c (fst r) false)) by (rewrite A; reflexivity).
-    assert (E1 : expire c r = r2) by (unfold expire; rewrite Pj; reflexivity).
-    rewrite E1, (expire_done c r2 _ Pd).
-    eexists. split; [exact Pd|]. split; [apply decide_dead; exact Dr|].
-    rewrite XE. cbn. rewrite XJ, X1. lia.
+    set (k1 := fst r) in *.
+    assert (D1 : dead_oe k1) by (rewrite Er; exact D').
+    assert (R1 : is_run (s_in k1) = false) by (rewrite Er; exact Rin').
+    assert (P1 : s_pc k1 = PJoin (u :: rest) (Some true) false) by (rewrite Er; reflexivity).
+    rewrite (surjective_pairing r). fold k1.
+    destruct (expire_dead c k1 (snd r) u rest D1 R1 P1) as [X2 [[o [Po Fo]]|(pre2 & u2 & rest2 & Hr & Hrun2 & E2)]].
+    + set (r2 := expire c (k1, snd r)) in *. rewrite (expire_done c r2 _ Po).
+      exists o. split; [exact Po|]. split; [exact Fo|]. rewrite X2, XJ, X1. lia.
+    + set (r2 := expire c (k1, snd r)) in *.
+      assert (D2 : dead_oe (fst r2)) by (rewrite E2; exact D1).
+      assert (R2 : is_run (s_in (fst r2)) = false) by (rewrite E2; exact R1).
+      assert (P2 : s_pc (fst r2) = PJoin (u2 :: rest2) (Some true) false) by (rewrite E2; reflexivity).
+      rewrite (surjective_pairing r2).
+      destruct (expire_dead c (fst r2) (snd r2) u2 rest2 D2 R2 P2) as [X3 [[o [Po Fo]]|(pre3 & u3 & rest3 & Hr3 & Hrun3 & _)]].
+      * exists o. split; [exact Po|]. split; [exact Fo|]. rewrite X3, X2, XJ, X1. lia.
+      * (* a third running worker below two distinct running out/err workers: impossible *)
+        exfalso.
+        assert (Nd : NoDup (u :: pre2 ++ u2 :: pre3 ++ u3 :: rest3)).
+        { rewrite Htodo in N. apply NoDup_suffix in N. rewrite Hr, Hr3 in N. exact N. }
+        assert (Ru : is_run (wget k' u) = true) by exact Hrun.
+        assert (Ru2 : is_run (wget k' u2) = true) by (rewrite Er in Hrun2; rewrite wget_set_pc in Hrun2; exact Hrun2).
+        assert (Ru3 : is_run (wget k' u3) = true).
+        { rewrite E2 in Hrun3. rewrite wget_set_pc in Hrun3. rewrite Er in Hrun3. rewrite wget_set_pc in Hrun3. exact Hrun3. }
+        assert (Ne12 : u <> u2).
+        { intros ->. inversion Nd as [|? ? Hn _]; subst. apply Hn. apply in_or_app. right. left. reflexivity. }
+        assert (Ne13 : u <> u3).
+        { intros ->. inversion Nd as [|? ? Hn _]; subst. apply Hn. apply in_or_app. right. right.
+          apply in_or_app. right. left. reflexivity. }
+        assert (Ne23 : u2 <> u3).
+        { intros ->. inversion Nd as [|? ? _ Nd2]; subst. apply NoDup_suffix in Nd2.
+          inversion Nd2 as [|? ? Hn _]; subst. apply Hn. apply in_or_app. right. left. reflexivity. }
+        destruct u, u2, u3; cbn in Ru, Ru2, Ru3; try congruence; rewrite Rin' in *; discriminate.
 Qed.
 
-(** F-C08c: the stdin worker dies, the command goes on: blocked for ever *)
-Lemma dead_worker_bounded_refuted :
-  exists c script w x, start_raises c = false /\ death_while_running c script = Some (w, x) /\
-    s_pc (fst (run_sm c script)) = PHang.
+(** the F-C08c witness (the stdin worker dies, the command goes on holding its
+    pipes), as the machine behaves since the fix: two bounded joins expire *)
+Lemma stdin_death_witness :
+  let c := mkCfg false true false false false false true true in
+  death_while_running c [EExc WIn XOther] = Some (WIn, XOther) /\
+  s_pc (fst (run_sm c [EExc WIn XOther])) = PDone OThreadException /\
+  n_expired (snd (run_sm c [EExc WIn XOther])) = 2.
+Proof. vm_compute. auto. Qed.
+
+(** historical record (F-C08c, fixed): the old rule gave the stdout join no timeout
+    although the stdin worker was dead *)
+Lemma join_timeout_historical_refuted :
+  exists k, is_dead (s_in k) = true /\ is_run (s_out k) = true /\
+            join_bounded_legacy k WOut = false /\ join_bounded k WOut = true.
 Proof.
-  exists (mkCfg false true false false false false true true), [EExc WIn XOther], WIn, XOther.
-  vm_compute. auto.
+  exists (mkCtl None false WRun (WDead XOther) WRun true TNone (PJoin [WOut; WIn; WErr] None false)).
+  cbn. auto.
 Qed.
+
 
 Lemma invariant_holds c script :
   start_raises c = false -> Inv c (fst (run_events c (advance c (init c)) script)).
